@@ -27,6 +27,7 @@ func init() {
 func runC14(r *an.Run) {
 	compiledProgramReadOnly(r, "R1-compiled-program-is-read-only")
 	noPackageLevelState(r, "R1-compiled-program-is-read-only")
+	libraryFileImmutable(r, "R1-compiled-program-is-read-only")
 	c14FreshState(r)
 	c14NoAmbient(r)
 	c15OnceInOrder(r)
